@@ -81,6 +81,15 @@ DamageOps == <<
   [name |-> "tab-before-compact-map-in-value", kind |-> "doc", frag |-> <<"?", " ", "k", ":", " ", "v", "\n", ":", "\t", "j", ":", " ", "w", "\n">>],
   [name |-> "tab-before-compact-map-quoted-key-in-value", kind |-> "doc", frag |-> <<"?", " ", "k", "\n", ":", "\t", "\"", "j", "\"", ":", " ", "w", "\n">>],
   [name |-> "tab-before-nested-explicit-key", kind |-> "doc", frag |-> <<"?", "\t", "?", " ", "a", "\n">>],
+  [name |-> "quoted-not-deeper-seq-entry", kind |-> "doc", frag |-> <<"-", " ", "\"", "a", "\n", "b", "\"", "\n">>],
+  [name |-> "single-quoted-not-deeper-seq-entry", kind |-> "doc", frag |-> <<"-", " ", "'", "a", "\n", "b", "'", "\n">>],
+  [name |-> "quoted-not-deeper-nested-seq-entry", kind |-> "doc", frag |-> <<"k", ":", "\n", " ", " ", "-", " ", "\"", "a", "\n", " ", " ", "b", "\"", "\n">>],
+  [name |-> "quoted-not-deeper-value", kind |-> "doc", frag |-> <<"k", ":", " ", "\"", "a", "\n", "b", "\"", "\n">>],
+  [name |-> "quoted-not-deeper-explicit-key", kind |-> "doc", frag |-> <<"?", " ", "\"", "a", "\n", "b", "\"", "\n", ":", " ", "v", "\n">>],
+  [name |-> "quoted-not-deeper-anchored-entry", kind |-> "doc", frag |-> <<"-", " ", "&", "x", " ", "\"", "a", "\n", "b", "\"", "\n">>],
+  [name |-> "quoted-not-deeper-in-flow-in-block", kind |-> "doc", frag |-> <<"k", ":", " ", "[", "\"", "a", "\n", "b", "\"", "]", "\n">>],
+  [name |-> "quoted-not-deeper-compact-map-value", kind |-> "doc", frag |-> <<"-", " ", "j", ":", " ", "\"", "a", "\n", " ", " ", "b", "\"", "\n">>],
+  [name |-> "quoted-not-deeper-entry-next-line", kind |-> "doc", frag |-> <<"-", "\n", " ", "\"", "a", "\n", "b", "\"", "\n">>],
   [name |-> "content-after-document-end-2", kind |-> "stream", frag |-> <<"a", ":", " ", "b", "\n", ".", ".", ".", " ", "-", " ", "c", "\n">>] >>
 
 \* base: a well-formed stream ending with a line break (its text). placement: 0 = own document, 1 = nested
